@@ -501,7 +501,7 @@ theorem row_compat (l : Bool) (a b : EAttr) (va : VAttr) (fs : Fields) (rest0 : 
           rw [hsa] at hcv
           have hall : allOptional gs = true := hcv.2.2
           have HB : BodyHyp (vb.enc.getD (b.enc.getD .array)) [] [] gs := by
-            refine ⟨rfl, by simp [liveIdxs], rfl, haccR, hndR, by simp [compatFields], ?_, ?_, ?_, trivial⟩
+            refine ⟨rfl, by simp [liveIdxs], rfl, haccR, hndR, by simp [compatFields], ?_, ?_, trivial⟩
             · simp only [onlyOptional, List.all_eq_true, Bool.or_eq_true]
               intro g hg
               have := List.all_eq_true.1 hall g hg
@@ -509,7 +509,6 @@ theorem row_compat (l : Bool) (a b : EAttr) (va : VAttr) (fs : Fields) (rest0 : 
               rcases this with h | h
               · exact Or.inl (Or.inl h)
               · exact Or.inr h
-            · intro _; simp [specFields, maxPresent, k5Hit]
             · rw [show encFields [] [] = [] from rfl, frame_nil]
               cases (vb.enc.getD (b.enc.getD .array)) <;> decide
           have hpv : projVars ((va, []) :: rest0) us 0 [] =
@@ -556,13 +555,8 @@ theorem row_compat (l : Bool) (a b : EAttr) (va : VAttr) (fs : Fields) (rest0 : 
             rw [hfv] at hben
             simp only [hsb, hsa, Bool.true_and, Bool.and_eq_true, Bool.not_eq_true', Bool.and_eq_false_iff, beq_eq_false_iff_ne, ne_eq] at hben
             have hitm := hitems gs haccR hndR hcv.2.2.1 hben.1
-            have hk5' : va.enc.getD (a.enc.getD .array) = .array → k5Hit gs fs (maxPresent (specFields fs fvs)) = false := by
-              intro he
-              rcases hben.2 with h | h
-              · exact absurd (by rw [encOf_variant]; exact he) h
-              · rw [← maxPresent_enc_spec fs fvs H.accW H.ty]; exact h
             have HB : BodyHyp (va.enc.getD (a.enc.getD .array)) fs fvs gs :=
-              ⟨H.accW, H.ndW, H.ty, haccR, hndR, hcv.2.2.1, hcv.2.2.2, hk5', H.len, hitm⟩
+              ⟨H.accW, H.ndW, H.ty, haccR, hndR, hcv.2.2.1, hcv.2.2.2, H.len, hitm⟩
             have hpv : projVars ((va, fs) :: rest0) us 0 fvs =
                 (match assemble gs (projFields fs gs fvs) with
                  | .ok (.struct xs) => .ok (.enum pos xs)
@@ -752,17 +746,6 @@ theorem accF_of_mem : ∀ (gs : Fields) (b : FAttr) (u : FTy), acceptedFields gs
     rcases List.mem_cons.1 h with e | h'
     · cases e; exact ha.1.2
     · exact accF_of_mem gs b u ha.2 h'
-
-/-- the K5 exclusion of `benign`, in the form `body_compat` wants it. -/
-theorem k5_of_benign (e : Option Encoding) (fs gs : Fields) (vs : List Val) (hacc : acceptedFields fs = true)
-    (hty : hasFields fs vs = true)
-    (h : (!(true && encOf e == .array && k5Hit gs fs (piecesMax (encFields fs vs)))) = true) :
-    e.getD .array = .array → k5Hit gs fs (maxPresent (specFields fs vs)) = false := by
-  intro he
-  simp only [Bool.true_and, Bool.not_eq_true', Bool.and_eq_false_iff, beq_eq_false_iff_ne, ne_eq] at h
-  rcases h with h | h
-  · exact absurd he h
-  · rw [← maxPresent_enc_spec fs vs hacc hty]; exact h
 
 /-! ### the projection is defined on compatible versions (no decoder involved) -/
 
